@@ -29,6 +29,8 @@ def relevant(prop, f):
             return c & {"U_keys"}
         if sk == "dropspecial":
             return c & {"S_ok", "S_typed", "U_lossless", "U_raise"}
+        if sk == "mutate" and l >= 3:      # which keys are written follows the object's CURRENT attributes
+            return c & {"U_keys", "U_raise"}
         return set()
     if prop == "C11":
         return c & {"S_reject"} if sk in ("dropreq", "enum", "lit", "intval") else set()
@@ -55,7 +57,7 @@ def relevant(prop, f):
 
 
 SESSION_KINDS = {
-    "C01": ["parse"], "C02": ["ctor"], "C03": ["parse", "ctor", "unk", "dropspecial"], "C10": ["ctor", "dropspecial"],
+    "C01": ["parse"], "C02": ["ctor"], "C03": ["parse", "ctor", "unk", "dropspecial"], "C10": ["ctor", "dropspecial", "mutate"],
     "C11": ["dropreq", "enum", "lit", "intval"], "C12": ["intval"], "C13": ["enum", "parse", "ctor"], "C14": ["parse"],
     "C15": ["unk"],
 }
